@@ -180,6 +180,10 @@ class Repo:
                     tree = ast.parse(src, filename=rel)
                 except SyntaxError as e:
                     raise AnalysisError(f"cannot parse {rel}: {e}") from e
+                if not os.environ.get("GLINT_NO_CANON"):
+                    from glint.canon import canonicalise
+
+                    self.canonicalised = getattr(self, "canonicalised", 0) + canonicalise(tree)
                 set_parents(tree)
                 is_pkg = fn == "__init__.py"
                 modname = rel[:-3].replace("/", ".")
